@@ -34,6 +34,7 @@
 #include "rt.h"
 
 #define NSV_CAS 1
+#define NSV_STORE 7
 #define NSV_STORE_REL 8
 static const char *const op_names[] = { "?", "CAS", "CAS_ACQ", "CAS_REL", "CAS_RELACQ", "LOAD", "LOAD_ACQ", "STORE", "STORE_REL",
 	"YIELD", "FUTEX_WAIT", "FUTEX_WAKE", "HARNESS", "BLOCK", "RESUME", "TIMEOUT", "FAULT" };
@@ -449,6 +450,8 @@ static void sched_point (int forced_switch) {
 	handoff (forced_switch);
 }
 
+static int p_stall_ppm;
+static unsigned long long stalls_total;
 static void sched_reset (int nthreads, uint64_t seed) {
 	NT = nthreads; round_steps = 0; round_switches = 0; sched_hash = sig_hash; me = -1;
 	sched_rng = mix64 (seed ^ 0x5ced5ced) | 1;
@@ -456,7 +459,11 @@ static void sched_reset (int nthreads, uint64_t seed) {
 	step_budget = (uint64_t) rt_param ("budget", 2000000);
 	static const int sw[3] = { 50000, 200000, 500000 };
 	p_switch_ppm = sw[xs (&sched_rng) % 3];
-	p_fire_ppm = (int) rt_param ("fire_ppm", 20000);
+	{ static const int fp[4] = { 20000, 20000, 2000, 150000 };     /* timers fire early rarely / sometimes / eagerly, per round */
+	  p_fire_ppm = (int) rt_param ("fire_ppm", fp[xs (&sched_rng) % 4]); }
+	/* store stalls: in half of the rounds, a thread about to execute a plain atomic STORE (the operations that can clobber what another
+	   thread's CAS wrote since this thread's last load) is held back, with probability 1/4, while others take 1..4 turns */
+	p_stall_ppm = (rt_scen.adversary != NULL || !rt_param ("stall", 1)) ? 0 : ((xs (&sched_rng) & 1) ? 250000 : 0);
 	strat_pct = 0;
 	if (strcmp (strategy, "pct") == 0) strat_pct = 1;
 	else if (strcmp (strategy, "mix") == 0) strat_pct = (xs (&sched_rng) % 4 == 0);
@@ -547,6 +554,11 @@ void nsync_verif_step_ (const char *file, int line, const char *func, int op, co
 	int s = site_of (file, line);
 	__atomic_fetch_add (&sites[s].hits, 1, __ATOMIC_RELAXED);
 	if (mode_b) {
+		if (op >= NSV_STORE && p_stall_ppm && sched_active && xs (&sched_rng) % 1000000u < (uint64_t) p_stall_ppm) {
+			int k = 1 + (int) (xs (&sched_rng) % 4);
+			stalls_total++;
+			while (k-- > 0) sched_point (1);
+		}
 		sched_point (0);
 		if (ring_on) T[me].last_ring = ring_put (op, file, line, (const void *) addr);
 		if (trace) fprintf (stderr, "T%d %s %s:%d @%p\n", me, op_names[op], base_name (file), line, (const void *) addr);
